@@ -3,6 +3,7 @@ package wl
 import (
 	"fmt"
 	"math/rand"
+	"strings"
 	"sync"
 	"sync/atomic"
 	"time"
@@ -38,6 +39,9 @@ func checkOutgoing(c *wk.Ctx, idx int, e *rpcEnv, tag string, clockNanos func() 
 	for i, r := range recv {
 		c.Count("c10.messages", 1)
 		k := key{r.Conn, r.Sess}
+		if strings.HasPrefix(tag, "reconnect") {
+			k.conn = 0 // a session outlives its connections: the order is that of the session
+		}
 		if r.MsgID%4 != 0 {
 			c.Viol("C10", idx, "msg_id-not-multiple-of-4/"+tag, fmt.Sprintf("message %d: msg_id %d", i, r.MsgID), nil)
 		}
@@ -163,7 +167,98 @@ func c10(c *wk.Ctx) {
 		}
 		idx++
 	}
+	// (E) the session outlives its connections: calls, the server closes, the client reconnects, calls again
+	for k := 0; k < c.Pick(6, 120); k++ {
+		if c.Mine(idx) {
+			c.Begin(idx, fmt.Sprintf("reconnect %d", k))
+			c10reconnect(c, idx, c.Rand(idx))
+		}
+		idx++
+	}
 	theHooks.flushCounts(c)
+}
+
+func c10reconnect(c *wk.Ctx, idx int, r *rand.Rand) {
+	e, err := newRPCEnv(c, idx, r, envOpts{Handler: func(e *rpcEnv, p pendingReq, in *mtp.Inner) bool {
+		e.sendGroup(p.conn, [][]byte{e.resultBody(p, wrapOpts{})}, []uint64{p.uid}, false)
+		return true
+	}})
+	if err != nil {
+		c.Log.Emit(coreInconclusive("c10 setup: " + err.Error()))
+		return
+	}
+	defer e.close()
+	var reconnects int32
+	theHooks.start(rand.New(rand.NewSource(r.Int63())), map[string]int{"send.id": 300, "ack.before": 300}, func(name string, arg int64) {
+		if name == "reconnect.done" {
+			atomic.AddInt32(&reconnects, 1)
+		}
+	})
+	defer theHooks.stop()
+	used := map[uint64]bool{}
+	calls := func(n int) bool {
+		var wg sync.WaitGroup
+		okAll := int32(1)
+		for g := 0; g < n; g++ {
+			kind := rpcKinds[r.Intn(len(rpcKinds))]
+			uid := uidFor(r, kind, used)
+			wg.Add(1)
+			go func(g int) {
+				defer wg.Done()
+				if rec := e.doCall(g, uid, kind, false); !rec.OK {
+					atomic.StoreInt32(&okAll, 0)
+				}
+			}(g)
+		}
+		return withTimeout(30*time.Second, wg.Wait) && atomic.LoadInt32(&okAll) == 1
+	}
+	rounds := 1 + r.Intn(3)
+	for round := 0; round <= rounds; round++ {
+		if !calls(1 + r.Intn(4)) {
+			c.Log.Emit(coreInconclusive(fmt.Sprintf("c10 reconnect: calls of round %d did not all complete (C16 judges that)", round)))
+			return
+		}
+		if round == rounds {
+			break
+		}
+		// the close is orderly: the server waits until what it has sent is acknowledged (an acknowledgement cut off by
+		// the close would be the server's doing — it would deliver the message again — not a broken rule)
+		for w := 0; w < 1000; w++ {
+			e.mu.Lock()
+			all := true
+			for id := range e.sentCont {
+				if !e.acked[id] {
+					all = false
+					break
+				}
+			}
+			e.mu.Unlock()
+			if all {
+				break
+			}
+			time.Sleep(10 * time.Millisecond)
+		}
+		conns := e.srv.Conns()
+		cn := conns[len(conns)-1]
+		before := atomic.LoadInt32(&reconnects)
+		cn.Close()
+		ok := false
+		for w := 0; w < 1000; w++ {
+			if atomic.LoadInt32(&reconnects) > before {
+				ok = true
+				break
+			}
+			time.Sleep(10 * time.Millisecond)
+		}
+		if !ok {
+			c.Log.Emit(coreInconclusive("c10 reconnect: reconnect.done not seen (C16 judges that)"))
+			return
+		}
+	}
+	e.quiesce(2 * time.Second)
+	checkOutgoing(c, idx, e, "reconnect", wallClock)
+	c.Count("c10.reconnect_histories", 1)
+	c.Distinct("reconnect", rounds, idx)
 }
 
 // c10burst: reverse-release gate at send.id.
